@@ -239,7 +239,7 @@ func (obj *Instance) BoundReceive(ps *slip.Scope, message string, bindings *slip
 			s.Let(slip.Symbol("method"), slip.Symbol(message))
 			var args slip.List
 			for k, v := range bindings.Vars {
-				args = append(args, slip.List{slip.Symbol(k), slip.Tail{Value: v}})
+				args = append(args, slip.Cons(slip.Symbol(k), v))
 			}
 			s.Let(slip.Symbol("args"), args)
 			return bc.BoundCall(s, depth)
